@@ -99,6 +99,14 @@ func main() {
 	id := 0
 	next := func() int { id++; return id }
 
+	// corpus: distributors with filters (MakeDistributorBroker over WithInputFilter / WithOutputFilter)
+	for i, be := range []string{"queue", "deque", "queue", "deque", "chan"} {
+		inF, outF := []int{0, 3, 2, 0, 0}[i], []int{2, 0, 3, 2, 2}[i]
+		sc := bk.GenFiltered(next(), be, inF, outF, []int{1, 2, 4, 1, 2}[i], i%2 == 1)
+		res := execute(sc)
+		record(run, sc, &res)
+	}
+
 	rounds := run.Pick(1500, 20000)
 	procs := []int{runtime.NumCPU(), 1, 2, 4}
 	for i := 0; i < rounds && unexpected < 3; i++ {
